@@ -138,5 +138,8 @@ def main():
     r = mc.model_gen("secp", 2, mc.ALL_CLASSES, 0, 1, wd, emit=False)
     print("MC_Gen                         -> %s (%d states)" % ("holds" if r["stats"]["ok"] else "violated", r["stats"]["states"]))
     failures += 0 if r["stats"]["ok"] else 1
+    from . import proofs
+    if proofs.main() != 0:
+        failures += 1
     print("selftest: %s" % ("ok" if failures == 0 else "%d FAILURE(S)" % failures))
     return 0 if failures == 0 else 1
